@@ -7,7 +7,14 @@ meta = json.load(open(os.path.join(V, "tools", "manifest_meta.json")))
 ids = ["C%02d" % i for i in range(1, 21)]
 checks, na = [], []
 for pid in ids:
-    m = meta["properties"].get(pid, {})
+    m = dict(meta["properties"].get(pid, {}))
+    evf = os.path.join(V, "evidence", pid + ".json")
+    if os.path.exists(evf):
+        ev = json.load(open(evf))["coverage"]
+        rules = sorted(k for k in ev.get("rules", {}) if k.startswith("R"))
+        nd = ev.get("not_decided", [])
+        m.setdefault("level_text", meta["default_level_text"] + "; rules decided: " + ", ".join(rules))
+        m.setdefault("level_note", meta["default_level_note"] + ("; NOT decided for this property: " + "; ".join(nd) if nd else ""))
     if os.path.exists(os.path.join(V, "cwa", "rules", pid + ".py")) and not m.get("not_applicable"):
         checks.append({
             "property_id": pid,
